@@ -41,7 +41,7 @@ def path_worlds():
                 def exp(line, raw, ww, d=d, fn=fn, ext=ext, name=name, sa=sa):
                     t = raw.split()
                     got = unhx(t[1]).decode()
-                    caller = '/repo/snaps/zz_verif_harness_test.go'
+                    caller = core.REPO + '/snaps/zz_verif_harness_test.go'
                     want = formula(caller, d, fn, ext, name, bool(sa))
                     if got != want:
                         return 'location %r, the formula of the property gives %r' % (got, want)
@@ -59,8 +59,8 @@ go 1.22
 
 require github.com/gkampitakis/go-snaps v0.0.0
 
-replace github.com/gkampitakis/go-snaps => /repo
-'''
+replace github.com/gkampitakis/go-snaps => %s
+''' % core.REPO
 
 
 def gen_program(r, idx):
@@ -124,7 +124,7 @@ def run_program(prog, trimpath, othercwd, root):
         p = os.path.join(d, rel)
         os.makedirs(os.path.dirname(p), exist_ok=True)
         open(p, 'w').write(content)
-    shutil.copy('/repo/go.sum', os.path.join(d, 'go.sum'))
+    shutil.copy(core.REPO + '/go.sum', os.path.join(d, 'go.sum'))
     env = dict(os.environ)
     env.update(core.GOENV)
     for k in ('CI', 'UPDATE_SNAPS'):
